@@ -11,6 +11,7 @@ import (
 	"io"
 	"reflect"
 	"sort"
+	"sync"
 	"sync/atomic"
 
 	"github.com/tidwall/gjson"
@@ -314,16 +315,53 @@ func verifFS(op, path string) {
 
 var verifPoisonOn atomic.Bool
 
+// While poisoning is on, every buffer handed to putScanBuffer is remembered (and thereby kept alive, so its
+// address cannot be reused by a new allocation) until getScanBuffer hands it out again: a buffer put while it is
+// already remembered was put twice.
+var (
+	verifPoolMu     sync.Mutex
+	verifInPool     = map[*byte][]byte{}
+	verifDoublePuts atomic.Int64
+)
+
 // VerifSetPoison makes putScanBuffer overwrite every buffer it receives (0xAA) before pooling it,
 // so any view that outlives its buffer shows up as corrupted data.
-func VerifSetPoison(on bool) { verifPoisonOn.Store(on) }
+func VerifSetPoison(on bool) {
+	verifPoisonOn.Store(on)
+	verifPoolMu.Lock()
+	verifInPool = map[*byte][]byte{}
+	verifPoolMu.Unlock()
+}
+
+// VerifScanBufferDoublePuts reports how many times a scan buffer was returned to the pool while it was
+// already there (counted while poisoning is on).
+func VerifScanBufferDoublePuts() int64 { return verifDoublePuts.Load() }
 
 func verifPoison(buf []byte) {
 	if !verifPoisonOn.Load() {
 		return
 	}
 	full := buf[:cap(buf)]
+	if c := cap(buf); c >= 1<<scanBufferMinShift && c <= 1<<scanBufferMaxShift {
+		verifPoolMu.Lock()
+		if _, dup := verifInPool[&full[0]]; dup {
+			verifDoublePuts.Add(1)
+		}
+		verifInPool[&full[0]] = full
+		verifPoolMu.Unlock()
+	}
 	for i := range full {
 		full[i] = 0xAA
+	}
+}
+
+func verifScanBufferTaken(buf []byte) {
+	if !verifPoisonOn.Load() {
+		return
+	}
+	if full := buf[:cap(buf)]; len(full) > 0 {
+		verifPoolMu.Lock()
+		delete(verifInPool, &full[0])
+		verifPoolMu.Unlock()
 	}
 }
